@@ -74,6 +74,9 @@ func checkAgent(t rep.Fataler, ac AgentCase) {
 	file, _ := h.WriteDAG("g14", sim.YAML(&c, 0, ""))
 	d, err := dag.Load("", file, "")
 	if err != nil {
+		if !bad {
+			rep.Fail(t, ID, "agent", ac, map[string]any{"yaml": sim.YAML(&c, 0, "")}, "a definition whose dependency graph is well-formed (every name resolves, no cycle; steps are declared in an order of their own, not in execution order) is refused by the loader: %v", err)
+		}
 		// refused already by the loader: nothing can run; fine
 		rep.Eval("", "refused-by-loader")
 		return
